@@ -118,7 +118,8 @@ class Gen:
             i = self.r.choice(free)
         self.used.add(i)
         self.conn.add(i)
-        self.ops.append("c%d" % i)
+        # a third of the connections run over an MSE-negotiated RC4 stream (same model: plaintext semantics)
+        self.ops.append(("e%d" if self.r.random() < 0.33 else "c%d") % i)
         return True
 
     def batch(self, i, items):
@@ -142,7 +143,8 @@ class Gen:
 
     def block(self, i, b):
         if i in self.used:
-            self.ops.append("w%d:%s" % (i, "0" if b else "inf"))
+            un = "inf" if self.r.random() < 0.6 else "drip%d" % self.r.choice([1, 3, 7, 64, 1000, 16384])
+            self.ops.append("w%d:%s" % (i, "0" if b else un))
 
 
 def gen_provider_sweep(r, size, priv):
@@ -414,6 +416,10 @@ HAND = [
     (300, False, 40, "c0 b0:Hm3,x1,p7000 t w0:0 c1 b1:Hx2,p5 t t w0:inf t d1 t"),
     (300, False, 40, "c0 b0:Hm3 w0:0 b0:M2.0.0 b0:Hm0 w0:inf b0:M2.0.0 b0:Hm4 b0:M2.0.0"),
     (300, False, 40, "c0 b0:Hm3 w0:0 b0:M2.0.0 b0:M2.0.0/Hm0 w0:inf b0:Hm5 b0:M2.0.0"),
+    # RC4 streams: replies, shared (not owned) PEX buffers, partial writes of an encrypted message
+    (40000, False, 40, "e0 b0:Hm3,x1,p7000 b0:M2.0.0 b0:M2.0.1 b0:M2.0.2 t c1 b1:Hx2,p5 t"),
+    (40000, False, 40, "e0 b0:Hm3,x1,p7000 w0:0 b0:M2.0.0/M2.0.1/M2.0.2 w0:drip7 t e1 b1:Hx2,p5,m1 w0:0 w1:0 t b1:M2.0.2 w0:drip1000 w1:drip3 t"),
+    (300, True, 40, "c0 b0:Hm3 w0:0 b0:M2.0.0/M2.0.0 w0:drip1"),
 ]
 
 
@@ -531,6 +537,9 @@ def oracle_f(case, impl):
             if eid == 0 or eid not in valid:
                 viol.append(("ext-id-not-advertised",
                              "after '%s' a ut_metadata REQUEST was written with id %d to peer %d which advertised ut_metadata=%s" % (opname, eid, i, adv.get(i))))
+        if seg.startswith("same=") and seg != "same=1":
+            viol.append(("magnet-different-torrent",
+                         "the Download loaded from the fetched metadata differs from the one the original info dictionary gives: %s" % seg[:300]))
         m = F_SNAP.search(seg)
         if m and m.group(3) == "1" and m.group(5) != want:
             viol.append(("magnet-completed-unverified",
@@ -670,7 +679,7 @@ def oracle(case, impl):
                             cand[i][f[0]].append(a[f[0]])
                         if len(f) >= 2 and f[0] == "p" and 1 <= int(f[1:]) <= 65535:
                             valid_ports.setdefault(i, {0}).add(int(f[1:]))
-        if opname.startswith("c"):
+        if opname[:1] in ("c", "e"):
             adv[int(opname[1])] = {"m": None, "x": None}
         conn = {}
         for m in SNAP_RE.finditer(snap):
